@@ -163,8 +163,9 @@ CHECKS = {
              "ValueError / InvalidChordException and nothing else.",
         note="Totality of the metric bodies on valid input (valid => a result, and which exception classes can escape on ANY "
              "input) is proved per task in Props/C14_<Task>.lean for beat, boundary, alignment, pattern, melody, multipitch, "
-             "transcription(+velocity), segment labelling and chord-level scoring, plus onset / tempo / hierarchy in their own "
-             "files; escapes found there (goto_threshold >= 1 -> IndexError, empty pattern occurrences -> ZeroDivisionError, "
+             "transcription(+velocity), segment labelling and chord-level scoring, onset (C14_Onset.f_measure_ok_iff), tempo "
+             "(C14_Tempo.detection_total / detection_errors), key (C14_Key.weighted_score_errors: no KeyError escapes), "
+             "hierarchy in C17; escapes found there (goto_threshold >= 1 -> IndexError, empty pattern occurrences -> ZeroDivisionError, "
              "empty melody series -> IndexError, ...) are stated as refuted full statements with the exact escaping set. NaN and non-array containers are out of scope. Repaired: p_score int(NaN), zero-length crop in segment/chord.evaluate on boundary coincidence, beat.evaluate "
              "flattening 2-D input. Known findings that remain: negative multipitch frequency accepted (repairing it would turn a "
              "baseline XPASS test into XFAIL), one-level hierarchies never validated, chord TypeError on a zero-span reference, "
